@@ -75,6 +75,14 @@ def check_once(ctx, cls, info):
                 ok1 = len(evs) == 1
                 ctx.ob("R04-ONCE", ok1, cls.file, qual, "loop over %s" % e[1], "one update_reward per element" if ok1 else
                        "%d credits per element" % len(evs), fn.lineno)
+                # the loop must run over the whole hand-out container
+                it = e[1]
+                cont = it[len("range(len("):-2] if it.startswith("range(len(") and it.endswith("))") else it
+                whole = is_plain_container(cont) and all(x[1] in ("EACH(%s)" % it, "%s[EACH(%s)]" % (cont, it)) for x in evs)
+                ctx.ob("R04-ONCE", whole, cls.file, qual, "loop over %s covers every handed-out cell" % it,
+                       "iterates the whole container %s" % cont if whole else
+                       "the crediting loop iterates '%s' and credits %s: not every cell of the handed-out chain is credited" % (it, [x[1] for x in evs]),
+                       fn.lineno)
             for x in evs:
                 if x[0] == "node":
                     ctx.ob("R04-ONCE", x[2] == reward, cls.file, qual, "%s.update_reward(%s)" % (x[1], x[2]),
@@ -105,6 +113,14 @@ def check_once(ctx, cls, info):
                 ctx.violation("R04-ONCE", cls.file, "%s.%s" % (cls.name, m), norm_src(n),
                               "a learner is given a reward outside the receive_reward path", n.lineno)
     return designators, reward
+
+
+def is_plain_container(src):
+    try:
+        e = ast.parse(src, mode="eval").body
+    except SyntaxError:
+        return False
+    return is_self_attr(e) or isinstance(e, ast.Name)
 
 
 def describe(evs):
